@@ -10,12 +10,15 @@ package c08
 //	(put m <k> <v>)        pool[m].(*MutableHashValue).Put(k, v), k and v scalars   entry: marker -
 //	(putall m s)           …PutAll(pool[s]) (s: builder, alias or hash)            entry: marker -
 //	(delete r <k>) (deleteall r s) (unique r) (entries r) (keys r) (values r) (slice r i j) (merge r s)
-//	                       the Hash method on pool[r] (builder, alias or hash); the entry is the answer: a value, or —
-//	                       when the answer IS the embedded Hash of a live builder (pointer identity) — an alias @<id>
+//	                       the method of pool[r] (builder, alias or hash; called on the value itself, so a builder's own
+//	                       Delete / DeleteAll / Entries / Unique are used where it has them); the entry is the answer: a
+//	                       value, or — when the answer IS the embedded Hash of a live builder (pointer identity; only on a
+//	                       tree without the repair /repo 1d333d3) — an alias @<id>
 //
 // Out = what every entry holds after the whole history.  Predicate: every entry other than a builder — everything typed
 // as an immutable value — reads after every later step as it read when it was obtained; class `mutable-alias` when the
-// entry is an alias of a builder (known finding C08-mutable-hash-answers-itself), `earlier-result-mutated.<op>` otherwise.
+// entry is an alias of a builder (finding C08-mutable-hash-answers-itself, fixed by /repo 1d333d3), `earlier-result-mutated.<op>`
+// otherwise.
 
 import (
 	"fmt"
@@ -143,7 +146,11 @@ func execMut(c px.Context, steps []sx.Sexp) core.Result {
 				e = call(func() { m.Put(valOf(a[1]), valOf(a[2])) })
 			}
 		case "putall":
-			r, s := at(a[0]), hashLike(at(a[1]))
+			r := at(a[0])
+			var s px.OrderedMap
+			if hashLike(at(a[1])) != nil {
+				s = at(a[1]).v.(px.OrderedMap)
+			}
 			var m *types.MutableHashValue
 			ok := false
 			if r != nil && r.v != nil {
@@ -155,11 +162,13 @@ func execMut(c px.Context, steps []sx.Sexp) core.Result {
 				e = call(func() { m.PutAll(s) })
 			}
 		default:
-			r := hashLike(at(a[0]))
-			if r == nil {
+			if hashLike(at(a[0])) == nil {
 				e = marker("~")
 				break
 			}
+			// the method is called on the VALUE (dynamic dispatch: a MutableHashValue's own Delete / DeleteAll / Entries /
+			// Unique where it has them, the promoted Hash method otherwise), never on the embedded Hash directly
+			r := at(a[0]).v.(px.OrderedMap)
 			switch st.Tag() {
 			case "delete":
 				if !isScalarLit(a[1]) {
@@ -172,12 +181,7 @@ func execMut(c px.Context, steps []sx.Sexp) core.Result {
 				if s == nil || s.v == nil {
 					e = marker("~")
 				} else {
-					var sl px.List
-					if h := hashOf(s.v); h != nil {
-						sl = h
-					} else {
-						sl = s.v.(px.List)
-					}
+					sl := s.v.(px.List)
 					e = call(func() { out = r.DeleteAll(sl) })
 				}
 			case "unique":
@@ -196,10 +200,10 @@ func execMut(c px.Context, steps []sx.Sexp) core.Result {
 					e = call(func() { out = r.Slice(int(i), int(j)) })
 				}
 			case "merge":
-				s := hashLike(at(a[1]))
-				if s == nil {
+				if hashLike(at(a[1])) == nil {
 					e = marker("~")
 				} else {
+					s := at(a[1]).v.(px.OrderedMap)
 					e = call(func() { out = r.Merge(s) })
 				}
 			}
